@@ -151,6 +151,15 @@ pub fn run(ctx: &mut Ctx) {
                 ctx.count("absent-type-required-alone");
             }
         }
+        // required lists with repeated entries, longer than the message has attributes
+        if let Some(first) = present.first().copied() {
+            let thrice: Vec<u16> = present.iter().chain(present.iter()).chain(present.iter()).copied().collect();
+            for req in [vec![first; 3], vec![first; 40], thrice] {
+                check_policing(ctx, &buf, &msg, &rp, &exposed_ref, &present, &req, &o);
+                ctx.eval();
+                ctx.count("required-with-repeats");
+            }
+        }
         // duplicates in the lists themselves, and MI / FP named explicitly
         for (sup, req) in [
             (vec![], vec![]),
